@@ -19,6 +19,7 @@ fn main() {
         "core" => h::core::main(mode, rest),
         "worker" => h::worker::main(mode, rest),
         "sched" => h::sched::main(mode, rest),
+        "sysw" => h::sysw::main(mode, rest),
         _ => {
             eprintln!("unknown component {comp}");
             std::process::exit(2);
